@@ -18,7 +18,7 @@ PROPS = {
     'C01': {
         'modes': [(0, 4, 'random'), (0, 4, 'pattern'), (1, 4, 'random'), (1, 4, 'pattern')],
         'budget': {'quick': 60, 'thorough': 420},
-        'deciding': {'C01.reduce': (2000, 20000), 'C01.rule': (300, 3000), 'C01.nary': (300, 3000)},
+        'deciding': {'C01.reduce': (500, 5000), 'C01.rule': (75, 750), 'C01.nary': (75, 750)},
         'require_hist': {'quick': {'C01.rule.fired': RULES_ALL}, 'thorough': {'C01.rule.fired': RULES_ALL}},
         'rule': 'cases = seeded random well-typed expression trees (all operator classes, all combinators) and '
                 'documented patterns embedded in inert contexts; each case is reduced (also its transpose, its '
@@ -48,7 +48,7 @@ AS_MATRIX_IMPLS = ['AbstractLinearOperator', 'AdditionOperator', 'AbstractLazyIn
 PROPS['C03'] = {
     'modes': [(0, 8), (1, 8)],
     'budget': {'quick': 60, 'thorough': 400},
-    'deciding': {'C03.transpose': (3000, 30000), 'C03.bilinear': (500, 5000)},
+    'deciding': {'C03.transpose': (750, 7500), 'C03.bilinear': (125, 1250)},
     'require_hist': {'quick': {'C03.transpose.class': CLASSES_T}, 'thorough': {'C03.transpose.class': CLASSES_T}},
     'rule': 'cases = seeded atoms of every concrete class (every parameter form of the generator) and random composite '
             'expressions; each is transposed, transposed back (and sometimes a third time) with every nested transpose() '
@@ -63,7 +63,7 @@ PROPS['C03'] = {
 PROPS['C04'] = {
     'modes': [(0, 8), (1, 8)],
     'budget': {'quick': 60, 'thorough': 400},
-    'deciding': {'C04.as_matrix': (1500, 15000), 'C04.linearity': (700, 7000), 'C04.matvec': (700, 7000)},
+    'deciding': {'C04.as_matrix': (375, 3750), 'C04.linearity': (175, 1750), 'C04.matvec': (175, 1750)},
     'require_hist': {'quick': {'C04.as_matrix.impl': AS_MATRIX_IMPLS}, 'thorough': {'C04.as_matrix.impl': AS_MATRIX_IMPLS}},
     'rule': 'cases = seeded atoms and composites; for each, as_matrix() (specialised override) and the generic '
             'AbstractLinearOperator.as_matrix are called under the monitor and compared with mv on all basis vectors; '
@@ -78,7 +78,7 @@ PROPS['C04'] = {
 PROPS['C05'] = {
     'modes': [(0, 8), (1, 8)],
     'budget': {'quick': 60, 'thorough': 400},
-    'deciding': {'C05.mv': (10000, 100000), 'C05.declared': (1500, 15000), 'C05.sizes': (3000, 30000)},
+    'deciding': {'C05.mv': (2500, 25000), 'C05.declared': (375, 3750), 'C05.sizes': (750, 7500)},
     'require_hist': {'quick': {'C05.mv.mode': ['eager', 'traced'], 'C05.mv.class': CLASSES_T},
                      'thorough': {'C05.mv.mode': ['eager', 'traced'], 'C05.mv.class': CLASSES_T + ['InverseOperator']}},
     'rule': 'cases = seeded atoms and composites in both 64-bit modes (float32, float64 and mixed-dtype pytrees with x64 on); '
@@ -98,8 +98,8 @@ PROPS['C06'] = {
     'modes': [(0, 3, 'closed'), (0, 1, 'pinv'), (0, 1, 'refuse'), (0, 3, 'lazy'),
               (1, 3, 'closed'), (1, 1, 'pinv'), (1, 1, 'refuse'), (1, 3, 'lazy')],
     'budget': {'quick': 70, 'thorough': 420},
-    'deciding': {'C06.inverse': (1500, 12000), 'C06.roundtrip': (400, 3000), 'C06.lazy-solve': (40, 400),
-                 'C06.pinv-finite': (100, 800)},
+    'deciding': {'C06.inverse': (375, 3000), 'C06.roundtrip': (100, 750), 'C06.lazy-solve': (10, 100),
+                 'C06.pinv-finite': (25, 200)},
     'require_hist': {'quick': {'C06.inverse.kind': ['closed-form', 'singular', 'lazy', 'non-square-refused']},
                      'thorough': {'C06.inverse.kind': ['closed-form', 'singular', 'lazy', 'non-square-refused'],
                                   'C06.lazy.solver': ['CG-1e-3', 'CG-1e-5', 'CG-default', 'BiCGStab', 'GMRES', 'NormalCG', 'Cholesky', 'LU']}},
@@ -120,7 +120,7 @@ PROPS['C06'] = {
 PROPS['C02'] = {
     'modes': [(0, 6, 'tree'), (0, 2, 'reject'), (1, 6, 'tree'), (1, 2, 'reject')],
     'budget': {'quick': 60, 'thorough': 400},
-    'deciding': {'C02.boundary': (1500, 15000), 'C02.dunder': (1500, 15000), 'C02.reject': (400, 4000)},
+    'deciding': {'C02.boundary': (375, 3750), 'C02.dunder': (375, 3750), 'C02.reject': (100, 1000)},
     'require_hist': {'quick': {'C02.reject.how': ['shape', 'container', 'dtype', 'extra-leaf', 'rank']},
                      'thorough': {'C02.reject.how': ['shape', 'container', 'dtype', 'extra-leaf', 'rank']}},
     'rule': 'cases = (tree) expression trees of 1-3 arithmetic steps (@ on either side, +, -, k*, *k, /k, unary +-, construction '
@@ -139,8 +139,8 @@ PROPS['C02'] = {
 PROPS['C12'] = {
     'modes': [(0, 6, 'index'), (0, 2, 'pack'), (1, 6, 'index'), (1, 2, 'pack')],
     'budget': {'quick': 60, 'thorough': 400},
-    'deciding': {'C12.mv': (1500, 15000), 'C12.construct': (2000, 20000), 'C12.transpose': (1000, 10000),
-                 'C12.products': (800, 8000)},
+    'deciding': {'C12.mv': (375, 3750), 'C12.construct': (500, 5000), 'C12.transpose': (250, 2500),
+                 'C12.products': (200, 2000)},
     'require_hist': {'quick': {'C12.construct.how': ['with', 'without'], 'C12.ptp.result': ['DiagonalOperator'],
                                'C12.ppt.result': ['IdentityOperator'], 'C12.ppt.duplicates': ['True', 'False']},
                      'thorough': {'C12.construct.how': ['with', 'without'], 'C12.ptp.result': ['DiagonalOperator'],
@@ -161,8 +161,8 @@ PROPS['C12'] = {
 PROPS['C09'] = {
     'modes': [(0, 7, 'apply'), (0, 1, 'reject'), (1, 7, 'apply'), (1, 1, 'reject')],
     'budget': {'quick': 40, 'thorough': 400},
-    'deciding': {'C09.mv': (100, 1000), 'C09.apply': (200, 2000), 'C09.construct': (200, 2000),
-                 'C09.as_matrix': (80, 800), 'C09.reject': (50, 200), 'C09.jit': (40, 400)},
+    'deciding': {'C09.mv': (25, 250), 'C09.apply': (50, 500), 'C09.construct': (50, 500),
+                 'C09.as_matrix': (20, 200), 'C09.reject': (12, 50), 'C09.jit': (10, 100)},
     'require_hist': {'quick': {'C09.method': ['dense', 'direct', 'fft', 'overlap_save']},
                      'thorough': {'C09.method': ['dense', 'direct', 'fft', 'overlap_save']}},
     'rule': 'cases = (n in 1..60 quick / 1..200 thorough, K in 1..12 / 1..40 incl. K >= n, band batch shapes broadcastable to the '
@@ -180,8 +180,8 @@ PROPS['C09'] = {
 PROPS['C10'] = {
     'modes': [(0, 6, 'blocks'), (0, 2, 'extra'), (1, 6, 'blocks'), (1, 2, 'extra')],
     'budget': {'quick': 60, 'thorough': 400},
-    'deciding': {'C10.mv': (400, 4000), 'C10.as_matrix': (400, 4000), 'C10.transpose': (400, 4000),
-                 'C10.inverse': (60, 600), 'C10.reject': (50, 500), 'C10.products': (60, 600)},
+    'deciding': {'C10.mv': (100, 1000), 'C10.as_matrix': (100, 1000), 'C10.transpose': (100, 1000),
+                 'C10.inverse': (15, 150), 'C10.reject': (12, 125), 'C10.products': (15, 150)},
     'require_hist': {'quick': {'C10.class': ['row', 'diag', 'col'], 'C10.products': ['blocks/row@diag', 'blocks/diag@col', 'blocks/diag@diag', 'blocks/row@col']},
                      'thorough': {'C10.class': ['row', 'diag', 'col'], 'C10.products': ['blocks/row@diag', 'blocks/diag@col', 'blocks/diag@diag', 'blocks/row@col']}},
     'rule': 'cases = block row/diagonal/column operators over list, tuple, dict (unsorted keys), nested, one-side-nested, single-operator '
@@ -200,7 +200,7 @@ PROPS['C10'] = {
 PROPS['C11'] = {
     'modes': [(0, 8, 'diag'), (1, 8, 'diag')],
     'budget': {'quick': 50, 'thorough': 360},
-    'deciding': {'C11.mv': (500, 5000), 'C11.construct': (1000, 10000), 'C11.as_matrix': (100, 1000), 'C11.reject': (20, 100)},
+    'deciding': {'C11.mv': (125, 1250), 'C11.construct': (250, 2500), 'C11.as_matrix': (25, 250), 'C11.reject': (5, 25)},
     'require_hist': {'quick': {'C11.construct': ['BroadcastDiagonalOperator:accepted', 'BroadcastDiagonalOperator:refused',
                                                  'DiagonalOperator:accepted', 'DiagonalOperator:refused']},
                      'thorough': {}},
@@ -220,7 +220,7 @@ PROPS['C11'] = {
 PROPS['C13'] = {
     'modes': [(0, 8, 'axes'), (1, 8, 'axes')],
     'budget': {'quick': 20, 'thorough': 130},
-    'deciding': {'C13.mv': (1500, 15000), 'C13.construct': (1500, 15000), 'C13.roundtrip': (800, 8000), 'C13.permutation': (500, 5000)},
+    'deciding': {'C13.mv': (375, 3750), 'C13.construct': (375, 3750), 'C13.roundtrip': (200, 2000), 'C13.permutation': (125, 1250)},
     'require_hist': {'quick': {'C13.mv.class': ['MoveAxisOperator', 'RavelOperator', 'ReshapeOperator', 'ReshapeTransposeOperator'],
                                'C13.construct': ['ravel:accepted', 'ravel:refused', 'reshape:accepted', 'reshape:refused']},
                      'thorough': {'C13.mv.class': ['MoveAxisOperator', 'RavelOperator', 'ReshapeOperator', 'ReshapeTransposeOperator']}},
@@ -261,7 +261,7 @@ PROPS['C14'] = {
 PROPS['C15'] = {
     'modes': [(0, 8, 'pol'), (1, 8, 'pol')],
     'budget': {'quick': 50, 'thorough': 360},
-    'deciding': {'C15.mv': (1500, 15000), 'C15.identity': (600, 6000), 'C15.factory': (300, 3000), 'C15.chain': (300, 3000)},
+    'deciding': {'C15.mv': (375, 3750), 'C15.identity': (150, 1500), 'C15.factory': (75, 750), 'C15.chain': (75, 750)},
     'require_hist': {'quick': {'C15.mv.class': ['HWPOperator', 'QURotationOperator', 'QURotationTransposeOperator', 'LinearPolarizerOperator'],
                                'C15.factory': ['qurot', 'hwp', 'hwp-none', 'pol', 'pol-none']},
                      'thorough': {'C15.mv.class': ['HWPOperator', 'QURotationOperator', 'QURotationTransposeOperator', 'LinearPolarizerOperator']}},
@@ -281,7 +281,7 @@ PROPS['C15'] = {
 PROPS['C07'] = {
     'modes': [(0, 8), (1, 8)],
     'budget': {'quick': 50, 'thorough': 300},
-    'deciding': {'C07.normal-form': (800, 8000)},
+    'deciding': {'C07.normal-form': (200, 2000)},
     'require_hist': {'quick': {}, 'thorough': {}},
     'rule': 'cases = 1-3 documented patterns (lazy/diagonal/orthogonal inverses, consecutive rotations and transposes, rotation-HWP, '
             'polariser-HWP, polariser-rotation-HWP, the four block pairs, P@P.T for duplicate-free indexing and packing, P.T@P for one '
@@ -306,7 +306,7 @@ TAGGED = ['IdentityOperator:orthogonal=True', 'IdentityOperator:diagonal=True', 
 PROPS['C08'] = {
     'modes': [(0, 8), (1, 8)],
     'budget': {'quick': 40, 'thorough': 300},
-    'deciding': {'C08.tags': (2000, 20000), 'C08.untagged': (500, 5000)},
+    'deciding': {'C08.tags': (500, 5000), 'C08.untagged': (125, 1250)},
     'require_hist': {'quick': {'C08.answers': TAGGED}, 'thorough': {'C08.answers': TAGGED}},
     'rule': 'cases = every operator instance met in seeded atoms/composites (the operator and every operator nested in it) plus dedicated '
             'instances of each tagged class (batched Toeplitz bands, negative scalars, angle arrays of every broadcastable shape, Toast '
@@ -323,8 +323,8 @@ PROPS['C08'] = {
 PROPS['C17'] = {
     'modes': [(0, 4, 'pixel'), (0, 4, 'healpix'), (1, 4, 'pixel'), (1, 4, 'healpix')],
     'budget': {'quick': 50, 'thorough': 300},
-    'deciding': {'C17.pixel2index': (50000, 500000), 'C17.bijection': (100, 100), 'C17.wide': (4, 10), 'C17.healpix': (100000, 1000000),
-                 'C17.coverage': (40, 400)},
+    'deciding': {'C17.pixel2index': (12500, 125000), 'C17.bijection': (100, 100), 'C17.wide': (4, 10), 'C17.healpix': (25000, 250000),
+                 'C17.coverage': (10, 100)},
     'require_hist': {'quick': {'C17.healpix.nside': [str(2 ** k) for k in range(14)]},
                      'thorough': {'C17.healpix.nside': [str(2 ** k) for k in range(14)]}},
     'rule': 'cases = (pixel) 1-3-dimensional maps with dimensions 1..6, 400 real coordinates each: strictly inside, mixed inside/outside, '
@@ -346,7 +346,7 @@ PROPS['C17'] = {
 PROPS['C16'] = {
     'modes': [(1, 16)],
     'budget': {'quick': 60, 'thorough': 400},
-    'deciding': {'C16.projection': (2000, 20000), 'C16.acquisition': (1000, 10000), 'C16.ptp': (40, 400), 'C16.ptp-as_matrix': (4, 40)},
+    'deciding': {'C16.projection': (500, 5000), 'C16.acquisition': (250, 2500), 'C16.ptp': (10, 100), 'C16.ptp-as_matrix': (4, 40)},
     'require_hist': {'quick': {}, 'thorough': {}},
     'rule': 'cases = nside in {1,2,4,8,16,64} x 4 Stokes kinds x 1-6 detectors x 1-3 directions per detector (projection) / 1 (SAT '
             'acquisition) x 1-40 samples (uniform, longitudes outside [0, 2 pi), poles, create_random_sampling) x random float64 sky maps; '
@@ -367,7 +367,7 @@ CLASSES_NOMASK = [c for c in CLASSES_ALL if c != 'PackOperator']
 PROPS['C18'] = {
     'modes': [(0, 7, 'ops'), (0, 1, 'landscapes'), (1, 7, 'ops'), (1, 1, 'landscapes')],
     'budget': {'quick': 80, 'thorough': 420},
-    'deciding': {'C18.roundtrip': (300, 3000), 'C18.jit-closure': (300, 3000), 'C18.jit-argument': (250, 2500), 'C18.landscape': (60, 300)},
+    'deciding': {'C18.roundtrip': (75, 750), 'C18.jit-closure': (75, 750), 'C18.jit-argument': (62, 625), 'C18.landscape': (60, 300)},
     'require_hist': {'quick': {'C18.mode.roundtrip': CLASSES_T, 'C18.mode.jit-closure': CLASSES_T, 'C18.mode.jit-argument': [c for c in CLASSES_T if c != 'PackOperator'],
                                'C18.landscape.kind': ['healpix', 'frequency', 'grid', 'config']},
                      'thorough': {'C18.mode.roundtrip': CLASSES_ALL, 'C18.mode.jit-closure': CLASSES_ALL, 'C18.mode.jit-argument': CLASSES_NOMASK,
@@ -388,7 +388,7 @@ PROPS['C18'] = {
 PROPS['C19'] = {
     'modes': [(0, 8, 'history'), (0, 4, 'schedules'), (0, 4, 'threads')],
     'budget': {'quick': 60, 'thorough': 400},
-    'deciding': {'C19.history': (1500, 15000), 'C19.apply': (20, 200), 'C19.schedule': (3000, 3000), 'C19.threads': (500, 5000), 'C19.contexts': (300, 3000)},
+    'deciding': {'C19.history': (375, 3750), 'C19.apply': (5, 50), 'C19.schedule': (3000, 3000), 'C19.threads': (125, 1250), 'C19.contexts': (75, 750)},
     'require_hist': {'quick': {'C19.schedules': ['2-threads', '3-threads']}, 'thorough': {'C19.schedules': ['2-threads', '3-threads']}},
     'exhaustive': {'quick': False, 'thorough': False},
     'rule': 'cases = (history) random well-nested histories of ENTER / EXIT / EXIT-BY-EXCEPTION / READ / CREATE-INVERSE / APPLY-INVERSE events '
@@ -409,7 +409,7 @@ PROPS['C19'] = {
 PROPS['C20'] = {
     'modes': [(0, 8), (1, 8)],
     'budget': {'quick': 50, 'thorough': 300},
-    'deciding': {'C20.arith': (800, 8000), 'C20.unary': (400, 4000), 'C20.factory': (400, 4000), 'C20.tree': (400, 4000), 'C20.reject': (300, 3000)},
+    'deciding': {'C20.arith': (200, 2000), 'C20.unary': (100, 1000), 'C20.factory': (100, 1000), 'C20.tree': (100, 1000), 'C20.reject': (75, 750)},
     'require_hist': {'quick': {'C20.factory': ['zeros', 'ones', 'full', 'normal', 'uniform', 'structure_for', 'from_stokes', 'from_stokes-kw', 'from_iquv', 'defaults'],
                                'C20.tree': ['dot', 'dot-complex', 'zeros_like', 'ones_like', 'full_like', 'normal_like', 'uniform_like', 'as_promoted_dtype', 'as_promoted_dtype-struct']},
                      'thorough': {}},
